@@ -51,7 +51,8 @@ def _inputs(ctx, mod):
     # every ordered pair of sets through one shared writer object (write A, write B, write A),
     # for every writer configuration: state carried from one write into the next
     pool = [("build", "b_plain"), ("build", "b_styled"), ("build", "b_unclosed"), ("build", "b_px"), ("build", "b_multi"),
-            ("DFXP", "dfxp2"), ("SAMI", "sami4"), ("WebVTT", "vtt2"), ("SCC", "scc2")]
+            ("DFXP", "dfxp2"), ("SAMI", "sami4"), ("WebVTT", "vtt2"), ("SCC", "scc2"),
+            ("build", "b_textalign"), ("SAMI", "sami_ta"), ("DFXP", "dfxp_ta")]
 
     def mk(item):
         return {"op": "build", "desc": item[1]} if item[0] == "build" else \
@@ -85,6 +86,12 @@ def _inputs(ctx, mod):
                     ins.append({"id": "p%d" % pk, "cast": "pairs", "ops": [
                         rd(a), rd(b), {"op": "edit", "set": "s1", "edit": "add_style"},
                         {"op": "edit", "set": "s2", "edit": "caption_style"}, rd(a), rd(b)]})
+                    # in-place edits of what the first result holds (geometry objects, rule dictionaries):
+                    # neither the other result nor a later read, by this or a fresh reader, may change
+                    fr = lambda d: {"op": "read", "reader": "other", "kind": kd, "doc": d, "fresh": True}
+                    ins.append({"id": "q%d" % pk, "cast": "pairs", "ops": [
+                        rd(a), rd(b), {"op": "edit", "set": "s1", "edit": "layout_deep"},
+                        {"op": "edit", "set": "s1", "edit": "style_deep"}, rd(b), fr(a), fr(b)]})
     for k in range(150 if ctx.quick else 4000):
         ins.append({"id": "r%d" % k, "ops": histories.random_history(rng, rng.randrange(12, 21), mod.WRITE_BIAS), "cast": "-"})
     # reference values for every term, computed up front in fresh interpreters
